@@ -430,4 +430,254 @@ theorem not_fileBlank_of_stripNonEmpty (l : Str) (h : stripNonEmpty l = true) : 
   obtain ⟨c, hc, hs⟩ := h
   exact not_fileBlank_of_mem l c hc hs
 
+/-! ## 5. indentation and comment-card tests on prefixes -/
+open _root_.MontePyVerif.Spec.File (isIndented isCommentCard isBlankLine)
+
+theorem takeWhile_blank_append : ∀ (p r : Str),
+    (p ++ r).takeWhile (· = ' ') = if p.all (· = ' ') then p ++ r.takeWhile (· = ' ') else p.takeWhile (· = ' ')
+  | [], r => by simp
+  | c :: p, r => by
+    by_cases hc : c = ' '
+    · subst hc
+      simp only [List.cons_append, List.takeWhile_cons, decide_true, if_true, List.all_cons, Bool.true_and,
+        takeWhile_blank_append p r]
+      split <;> simp
+    · simp [List.takeWhile_cons, hc]
+
+theorem all_blank_takeWhile (p : Str) (h : p.all (· = ' ') = true) : p.takeWhile (· = ' ') = p := by
+  induction p with
+  | nil => rfl
+  | cons c p ih =>
+    simp only [List.all_cons, Bool.and_eq_true, decide_eq_true_eq] at h
+    simp [List.takeWhile_cons, h.1, ih h.2]
+
+theorem takeWhile_blank_length_le (p : Str) : (p.takeWhile (· = ' ')).length ≤ p.length :=
+  (List.takeWhile_sublist _).length_le
+
+theorem isIndented_prefix (p r : Str) (h : 5 ≤ p.length) : isIndented (p ++ r) = isIndented p := by
+  simp only [isIndented, takeWhile_blank_append]
+  split
+  · rename_i hall
+    rw [all_blank_takeWhile p hall]
+    simp only [List.length_append]
+    have : (5 ≤ p.length + (r.takeWhile (· = ' ')).length) := by omega
+    simp [this, h]
+  · rfl
+
+theorem isIndented_blanks5 (x : Str) : isIndented (blanks 5 ++ x) = true := by
+  rw [isIndented_prefix _ _ (by simp [blanks])]
+  decide
+
+theorem isIndented_dollar (a t : Str) : isIndented (a ++ '$' :: t) = isIndented a := by
+  simp only [isIndented, takeWhile_blank_append]
+  split
+  · rename_i hall
+    rw [all_blank_takeWhile a hall]
+    simp [List.takeWhile_cons]
+  · rfl
+
+theorem not_comment_of_indented (x : Str) (h : isIndented x = true) : isCommentCard x = false := by
+  simp only [isIndented, decide_eq_true_eq] at h
+  simp [isCommentCard, h]
+
+theorem drop_append_of_le {α} (p r : List α) (k : Nat) (h : k ≤ p.length) : (p ++ r).drop k = p.drop k ++ r := by
+  rw [List.drop_append_of_le_length h]
+
+theorem isCommentCard_prefix (p r : Str) (h : 6 ≤ p.length) : isCommentCard (p ++ r) = isCommentCard p := by
+  by_cases hall : p.all (· = ' ') = true
+  · -- six or more blanks: neither is a comment card
+    have h1 : isIndented p = true := by
+      simp only [isIndented, all_blank_takeWhile p hall]; simp; omega
+    have h2 : isIndented (p ++ r) = true := by rw [isIndented_prefix _ _ (by omega)]; exact h1
+    rw [not_comment_of_indented _ h1, not_comment_of_indented _ h2]
+  · have htw : (p ++ r).takeWhile (· = ' ') = p.takeWhile (· = ' ') := by
+      rw [takeWhile_blank_append]; simp [hall]
+    simp only [isCommentCard, htw]
+    split
+    · rfl
+    · rename_i hlead
+      have hle := takeWhile_blank_length_le p
+      rw [drop_append_of_le _ _ _ hle]
+      have hlen : 2 ≤ (p.drop (p.takeWhile (· = ' ')).length).length := by
+        simp only [List.length_drop]; omega
+      cases hd : p.drop (p.takeWhile (· = ' ')).length with
+      | nil => rw [hd] at hlen; simp at hlen
+      | cons c rest =>
+        cases rest with
+        | nil => rw [hd] at hlen; simp at hlen
+        | cons d rr => simp
+
+theorem drop_takeWhile_blank : ∀ (l : Str), l.drop (l.takeWhile (· = ' ')).length = l.dropWhile (· = ' ')
+  | [] => rfl
+  | c :: l => by
+    by_cases hc : c = ' '
+    · simp [List.takeWhile_cons, List.dropWhile_cons, hc, drop_takeWhile_blank l]
+    · simp [List.takeWhile_cons, List.dropWhile_cons, hc]
+
+theorem takeWhile_blank_eq_blanks : ∀ (l : Str), l.takeWhile (· = ' ') = blanks (l.takeWhile (· = ' ')).length
+  | [] => rfl
+  | c :: l => by
+    by_cases hc : c = ' '
+    · have ih := takeWhile_blank_eq_blanks l
+      simp only [List.takeWhile_cons, hc, decide_true, if_true, List.length_cons, blanks, List.replicate_succ]
+      rw [← blanks, ← ih]
+    · simp [List.takeWhile_cons, hc, blanks]
+
+/-- the shape of a comment card -/
+theorem commentCard_shape (l : Str) (h : isCommentCard l = true) :
+    ∃ k c r, k < 5 ∧ (c = 'c' ∨ c = 'C') ∧ l = blanks k ++ c :: r ∧ (r = [] ∨ ∃ r', r = ' ' :: r') := by
+  simp only [isCommentCard] at h
+  split at h
+  · cases h
+  · rename_i hlead
+    have hsplit := List.takeWhile_append_dropWhile (p := (· = ' ')) (l := l)
+    have hdrop := drop_takeWhile_blank l
+    rw [hdrop] at h
+    have hbl := takeWhile_blank_eq_blanks l
+    cases hdw : l.dropWhile (· = ' ') with
+    | nil => rw [hdw] at h; cases h
+    | cons c r =>
+      rw [hdw] at h
+      simp only [Bool.and_eq_true, Bool.or_eq_true, decide_eq_true_eq] at h
+      refine ⟨(l.takeWhile (· = ' ')).length, c, r, by omega, h.1, ?_, ?_⟩
+      · rw [← hbl, ← hdw, hsplit]
+      · cases r with
+        | nil => exact Or.inl rfl
+        | cons d r' =>
+          right
+          have := h.2
+          simp only [decide_eq_true_eq] at this
+          exact ⟨r', by rw [this]⟩
+
+theorem takeWhile_blanks_cons (k : Nat) (c : Char) (r : Str) (hc : c ≠ ' ') :
+    (blanks k ++ c :: r).takeWhile (· = ' ') = blanks k := by
+  rw [takeWhile_blank_append]
+  have : (blanks k).all (· = ' ') = true := by simp [blanks]
+  simp [this, List.takeWhile_cons, hc]
+
+theorem isCommentCard_of_shape (k : Nat) (c : Char) (r : Str) (hk : k < 5) (hc : c = 'c' ∨ c = 'C')
+    (hr : r = [] ∨ ∃ r', r = ' ' :: r') : isCommentCard (blanks k ++ c :: r) = true := by
+  have hcb : c ≠ ' ' := by rcases hc with rfl | rfl <;> decide
+  simp only [isCommentCard, takeWhile_blanks_cons k c r hcb, length_blanks]
+  have : ¬ k ≥ 5 := by omega
+  simp only [this, if_false]
+  have : (blanks k ++ c :: r).drop k = c :: r := by
+    have := List.drop_left (l₁ := blanks k) (l₂ := c :: r)
+    rwa [length_blanks] at this
+  rw [this]
+  rcases hr with rfl | ⟨r', rfl⟩
+  · rcases hc with rfl | rfl <;> simp
+  · rcases hc with rfl | rfl <;> simp
+
+/-! ## 6. what a physical line contributes to the card it belongs to (reader of `Spec/File.lean`) -/
+open _root_.MontePyVerif.Spec.File (Card startCard contStep stripAmp splitDollar commentText rstrip lstrip isBlankC)
+open _root_.MontePyVerif.FileWrite (WCard CardOK ContOK readCard)
+
+/-- text without its blanks and tabs: what is compared of comments (wrapping re-flows them) -/
+def sq (s : Str) : Str := s.filter (fun c => !isBlankC c)
+
+theorem sq_append (a b : Str) : sq (a ++ b) = sq a ++ sq b := by simp [sq]
+
+theorem sq_blank_cons (b : Str) : sq (' ' :: b) = sq b := by
+  have : isBlankC ' ' = true := by decide
+  simp [sq, List.filter_cons, this]
+
+theorem sq_dropWhile : ∀ (s : Str), sq (s.dropWhile isBlankC) = sq s
+  | [] => rfl
+  | c :: t => by
+    by_cases hc : isBlankC c = true
+    · simp only [List.dropWhile_cons, hc, if_true, sq_dropWhile t]
+      simp [sq, List.filter_cons, hc]
+    · simp [List.dropWhile_cons, hc]
+
+theorem sq_lstrip (s : Str) : sq (lstrip s) = sq s := sq_dropWhile s
+
+theorem sq_reverse (s : Str) : sq s.reverse = (sq s).reverse := by simp [sq, List.filter_reverse]
+
+theorem sq_rstrip (s : Str) : sq (rstrip s) = sq s := by
+  simp only [rstrip, sq_reverse, sq_dropWhile, List.reverse_reverse]
+
+theorem mem_rstrip (s : Str) (x : Char) (h : x ∈ rstrip s) : x ∈ s := by
+  simp only [rstrip, List.mem_reverse] at h
+  have := (List.dropWhile_sublist (p := isBlankC) (l := s.reverse)).subset h
+  simpa using this
+
+theorem stripAmp_of_no_amp (s : Str) (h : '&' ∉ s) : stripAmp s = (s, false) := by
+  unfold stripAmp
+  simp only
+  split
+  · rename_i rest heq
+    exfalso
+    apply h
+    apply mem_rstrip
+    have : '&' ∈ (rstrip s).reverse := by rw [heq]; exact List.mem_cons_self
+    simpa using this
+  · rfl
+
+/-- the data of a data line does not hold the continuation mark -/
+def NoAmpL (l : Str) : Prop := isCommentCard l = false → '&' ∉ (splitDollar l).1
+
+/-- words the line adds to its card -/
+def cw (l : Str) : List Str := if isCommentCard l = true then [] else Spec.File.words (splitDollar l).1
+/-- `$` comment text the line adds -/
+def cdl (l : Str) : Str :=
+  if isCommentCard l = true then [] else match (splitDollar l).2 with | some t => sq t | none => []
+/-- comment-card text the line adds -/
+def ccm (l : Str) : Str := if isCommentCard l = true then sq (commentText l) else []
+
+/-- what is observed of a card: its words, its `$` comments and its comment cards without their blanks -/
+def obsCard (k : Card) : List Str × Str × Str := (Spec.File.words k.text, sq k.dollar.flatten, sq k.ccomments.flatten)
+
+def obsLines (ls : List Str) : List Str × Str × Str := ((ls.map cw).flatten, (ls.map cdl).flatten, (ls.map ccm).flatten)
+
+theorem fileWords_append_blank (a b : Str) :
+    Spec.File.words (a ++ ' ' :: b) = Spec.File.words a ++ Spec.File.words b := by
+  simp only [Spec.File.words]; rw [fileWordsAux_append_blank]
+
+theorem startCard_of_noAmp (l : Str) (hn : '&' ∉ (splitDollar l).1) :
+    startCard l = (⟨(splitDollar l).1, (match (splitDollar l).2 with | some t => [rstrip (lstrip t)] | none => []), []⟩, false) := by
+  simp only [startCard, stripAmp_of_no_amp _ hn]
+  rfl
+
+theorem obs_contStep (k : Card) (a : Bool) (l : Str) (hn : NoAmpL l) :
+    obsCard (contStep (k, a) l).1 =
+      ((obsCard k).1 ++ cw l, (obsCard k).2.1 ++ cdl l, (obsCard k).2.2 ++ ccm l) := by
+  by_cases hc : isCommentCard l = true
+  · simp [contStep, hc, obsCard, cw, cdl, ccm, sq_append]
+  · have hc' : isCommentCard l = false := by simpa using hc
+    have hs := startCard_of_noAmp l (hn hc')
+    simp only [contStep, hc, if_false, hs, obsCard, cw, cdl, ccm, Bool.false_eq_true, List.append_nil,
+      fileWords_append_blank, List.flatten_append, sq_append]
+    cases (splitDollar l).2 with
+    | none => simp [sq]
+    | some t => simp [sq_rstrip, sq_lstrip]
+
+theorem obs_fold : ∀ (ls : List Str) (k : Card) (a : Bool), (∀ l ∈ ls, NoAmpL l) →
+    obsCard (ls.foldl contStep (k, a)).1 =
+      ((obsCard k).1 ++ (obsLines ls).1, (obsCard k).2.1 ++ (obsLines ls).2.1, (obsCard k).2.2 ++ (obsLines ls).2.2)
+  | [], k, a, _ => by simp [obsLines]
+  | l :: t, k, a, h => by
+    have h1 := obs_contStep k a l (h l List.mem_cons_self)
+    have ih := obs_fold t (contStep (k, a) l).1 (contStep (k, a) l).2 (fun x hx => h x (List.mem_cons_of_mem _ hx))
+    simp only [List.foldl_cons]
+    rw [show contStep (k, a) l = ((contStep (k, a) l).1, (contStep (k, a) l).2) from rfl] 
+    rw [ih, h1]
+    simp [obsLines, List.append_assoc]
+
+/-- what `readCard` (C01Blocks) sees in a card is the sum of what its lines contribute -/
+theorem obs_readCard (c : WCard) (hfirst : isCommentCard c.first = false) (hn : ∀ l ∈ c.lines, NoAmpL l) :
+    obsCard (readCard c) = obsLines c.lines := by
+  have hf : NoAmpL c.first := hn c.first (by simp [FileWrite.WCard.lines])
+  have hs := startCard_of_noAmp c.first (hf hfirst)
+  unfold readCard
+  rw [show startCard c.first = ((startCard c.first).1, (startCard c.first).2) from rfl]
+  rw [obs_fold c.rest _ _ (fun l hl => hn l (by simp [FileWrite.WCard.lines, hl]))]
+  simp only [hs, obsCard, obsLines, FileWrite.WCard.lines, List.map_cons, List.flatten_cons, cw, cdl, ccm, hfirst,
+    Bool.false_eq_true, if_false]
+  cases (splitDollar c.first).2 with
+  | none => simp [sq]
+  | some t =>
+    have h0 : sq [] = [] := rfl
+    simp [sq_rstrip, sq_lstrip, h0]
+
 end MontePyVerif.C10
